@@ -200,3 +200,25 @@ def pipeline(tier, rep, calibrate=True, name="StringView"):
         if not stv["deviations"]:
             _cleanup(straces)
     return tv, st
+
+
+def replay(rec):
+    """Re-run one recorded call on the current tree: the driver expands a one-point input record (the recorded haystack,
+    needle and argument values) and the trace spec judges it; returns the deviations of the recorded call signature."""
+    ev = rec["event"]
+    ty = ev.get("inst", "char")
+    r = {"h": ev["h"], "n": ev["n"], "P": [ev["pos"]], "C": [min(max(ev["cnt"], 0), len(ev["n"]))],
+         "P1": [min(max(ev["pos"], 0), len(ev["h"]))], "C1": [ev["cnt"]], "P2": [min(max(ev["pos2"], 0), len(ev["n"]))],
+         "C2": [ev["cnt2"]], "K": [min(max(ev["pos"], 0), len(ev["h"]))], "u": 1, "c5": 1}
+    if ev["op"] == "compare" and ev.get("ov") == "4pn":
+        r["C"] = [ev["cnt2"]]
+    d = vlib.workdir("replay")
+    sp = os.path.join(d, "stringview_record.ndjson")
+    with open(sp, "w") as f:
+        f.write(json.dumps(r) + "\n")
+    b = vlib.build("stringview_driver.cpp", "stringview_replay", std="c++23")
+    tp = os.path.join(d, "stringview_trace.ndjson")
+    vlib.run([b, "replay", ty, sp], tp)
+    tv = vlib.tlc_tv("StringViewTrace.tla", "StringViewTrace.cfg", tp, "stringview_replay", heap="2g")
+    sig = lambda e: tuple(e.get(k) for k in ("op", "ov", "d", "pos", "cnt", "pos2", "cnt2"))
+    return [x for x in tv["deviations"] if sig(x.get("ev", {})) == sig(ev)]
